@@ -505,6 +505,27 @@ func runC08(c *core.Ctx, o Options) {
 	w.s.checkHandlersNeverCancel("W2", "the heartbeat goroutine leaves at its next wake-up although the session can be logged on again on the same connection, and never emits a Heartbeat again")
 	c.Explanation += " W2 premise: no registered message handler cancels the session context or stops the router on any path (the timers' goroutines end with the session, not with a message)."
 	c.Explanation += " W1 premise: SendBatch hands every element to DefaultHandler.send (retransmissions pass the refreshing handler too). W2 premise: no function of the library (session, handler, pools, bundled store) returns with a mutex it took still locked."
+	// W2 (premise): the session's context — whose end stops the heartbeat goroutine — is put on a deadline by Stop only after a
+	// Logout has gone out: a Stop that arms the deadline without having said goodbye (a Logout() that returns early while a probe is
+	// outstanding) ends the timers of a session the peer's next message restores to logged-on
+	if stop := w.s.m.Method("Stop"); stop != nil {
+		bad, n := "", 0
+		for _, t := range w.s.tr.Traces(stop, w.s.m.AllStates) {
+			sent := false
+			for _, e := range t.Events {
+				if e.Kind == "send" && hasKind(e.Kinds, "Logout") {
+					sent = true
+				}
+				if e.Kind == "afterfunc" || e.Kind == "cancel" {
+					n++
+					if !sent {
+						bad = "Stop arms the close deadline (or cancels) without having sent a Logout on path: " + traceStr(t)
+					}
+				}
+			}
+		}
+		c.Check(bad == "" && n > 0, "W2", "Stop", "the session is put on its close deadline only after a Logout was sent", stop.Pos(), "send(Logout) precedes time.AfterFunc on every path", bad)
+	}
 	// W3 (premise): the interval the initiator announces in its Logon is the interval its timers are built from — the operand of
 	// SetFieldHeartBtInt in LogonRequest is s.LogonSettings.HeartBtInt itself (a clamped or defaulted value on the wire makes the
 	// peer expect another N than the one this side heartbeats with)
